@@ -812,6 +812,27 @@ func (m *Model) ruleBACKFILLGAP(r *Results) {
 				}
 			})
 		}
+		// ... or into a closure that this function hands to a helper that runs it (a lock helper)
+		lexRegister := map[ssa.Instruction]*ssa.MapUpdate{}
+		if reg == nil && bfCall != nil {
+			for _, e := range m.calleesOf(fn) {
+				if !e.Lexical || e.IsGo {
+					continue
+				}
+				for _, b := range e.Callee.Blocks {
+					for _, ins := range b.Instrs {
+						if mu, ok := ins.(*ssa.MapUpdate); ok {
+							if ld, ok := mu.Map.(*ssa.UnOp); ok {
+								if fa, ok := ld.X.(*ssa.FieldAddr); ok && fieldOf(fa) == a.FeedsField {
+									reg = e.Site
+									lexRegister[e.Site] = mu
+								}
+							}
+						}
+					}
+				}
+			}
+		}
 		if bfCall == nil || reg == nil {
 			continue
 		}
@@ -855,6 +876,13 @@ func (m *Model) ruleBACKFILLGAP(r *Results) {
 			for l := range m.heldAt(in) {
 				if l.Field == a.BucketMutex {
 					return true
+				}
+			}
+			if mu := lexRegister[in]; mu != nil {
+				for l := range m.heldAt(mu) {
+					if l.Field == a.BucketMutex {
+						return true
+					}
 				}
 			}
 			// a call to a helper that performs the registration under the mutex itself
